@@ -732,7 +732,8 @@ fn gen_error_item(
         }
         4 => {
             // both txtpp name shapes are refused as temp targets (`x.txtpp`, `x.txtpp.ext`)
-            let t = *rng.pick(&["bad.txtpp", "bad.txtpp.md", "bad.min.txtpp.js"]);
+            // ... and a target below a directory that does not exist cannot be created (and nothing is created on the way)
+            let t = *rng.pick(&["bad.txtpp", "bad.txtpp.md", "bad.min.txtpp.js", "no/such/dir/t.tmp"]);
             b.head("", "-", format!("-TXTPP#temp {t}"), false, false);
             b.cont("-body".to_string());
             p.sig.push("err:temp-txtpp".into());
